@@ -75,6 +75,10 @@ var theLayout = []layoutEnt{
 	{"rootx", kDir, ""},
 	{"rootx/secret.lisp", kFile, tagOutside},
 	{"rootx/in.lisp", kFile, tagOutside},
+	// a sibling whose name differs from the root's only in letter case (the file system here is case-sensitive)
+	{"ROOT", kDir, ""},
+	{"ROOT/secret.lisp", kFile, tagOutside},
+	{"ROOT/in.lisp", kFile, tagOutside},
 	{"rootlink", kLink, "root"},
 	{"in.lisp", kFile, tagOutside},
 	{"secret.lisp", kFile, tagOutside},
